@@ -42,6 +42,7 @@ type propStats struct {
 
 var (
 	root    string
+	outRoot string // where evidence and found replays are written (== root unless VERIF_REPO is set)
 	harness string
 	goEnv   []string
 )
@@ -65,6 +66,14 @@ func main() {
 		root = filepath.Dir(filepath.Dir(exe))
 	}
 	harness = filepath.Join(root, "harness")
+	outRoot = root
+	if alt := os.Getenv("VERIF_REPO"); alt != "" {
+		// trial run against another checkout: nothing it finds is written into /verif
+		outRoot = filepath.Join(os.TempDir(), "verif-alt-out")
+		if o := os.Getenv("VERIF_OUT"); o != "" {
+			outRoot = o
+		}
+	}
 	goEnv = append(os.Environ(), "GOFLAGS=-mod=mod", "GOPROXY=off", "GOSUMDB=off", "GOTOOLCHAIN=local", "CGO_ENABLED=1")
 
 	id := os.Args[1]
@@ -103,21 +112,7 @@ func build(race bool, tmp string) string {
 	if race {
 		args = append(args, "-race")
 	}
-	// VERIF_REPO points the build at another checkout of the library (used to try
-	// seeded changes in a scratch worktree without touching /repo); the registered
-	// commands never set it.
-	if alt := os.Getenv("VERIF_REPO"); alt != "" {
-		gm, err := os.ReadFile(filepath.Join(harness, "go.mod"))
-		if err != nil {
-			fatal2("cannot read go.mod: %s", err)
-		}
-		altMod := filepath.Join(tmp, "go.alt.mod")
-		_ = os.WriteFile(altMod, []byte(strings.Replace(string(gm), "=> /repo", "=> "+alt, 1)), 0o644)
-		if gs, err := os.ReadFile(filepath.Join(harness, "go.sum")); err == nil {
-			_ = os.WriteFile(filepath.Join(tmp, "go.alt.sum"), gs, 0o644)
-		}
-		args = append(args, "-modfile="+altMod)
-	}
+	args = append(args, altModArgs(tmp)...)
 	args = append(args, "./props")
 	cmd := exec.Command("go", args...)
 	cmd.Dir = harness
@@ -128,6 +123,26 @@ func build(race bool, tmp string) string {
 		fatal2("building the property tests against /repo failed: %s", err)
 	}
 	return out
+}
+
+// altModArgs: VERIF_REPO points the build at another checkout of the library
+// (used to try seeded changes in a scratch worktree without touching /repo); the
+// registered commands never set it.
+func altModArgs(tmp string) []string {
+	alt := os.Getenv("VERIF_REPO")
+	if alt == "" {
+		return nil
+	}
+	gm, err := os.ReadFile(filepath.Join(harness, "go.mod"))
+	if err != nil {
+		fatal2("cannot read go.mod: %s", err)
+	}
+	altMod := filepath.Join(tmp, "go.alt.mod")
+	_ = os.WriteFile(altMod, []byte(strings.Replace(string(gm), "=> /repo", "=> "+alt, 1)), 0o644)
+	if gs, err := os.ReadFile(filepath.Join(harness, "go.sum")); err == nil {
+		_ = os.WriteFile(filepath.Join(tmp, "go.alt.sum"), gs, 0o644)
+	}
+	return []string{"-modfile=" + altMod}
 }
 
 type runOut struct {
@@ -471,9 +486,9 @@ func checkMain(id string, spec propSpec, tier string) int {
 	if agg.Samples == nil {
 		cov["samples"] = []interface{}{}
 	}
-	_ = os.MkdirAll(filepath.Join(root, "evidence"), 0o755)
+	_ = os.MkdirAll(filepath.Join(outRoot, "evidence"), 0o755)
 	eb, _ := json.MarshalIndent(ev, "", " ")
-	if err := os.WriteFile(filepath.Join(root, "evidence", id+".json"), eb, 0o644); err != nil {
+	if err := os.WriteFile(filepath.Join(outRoot, "evidence", id+".json"), eb, 0o644); err != nil {
 		fatal2("cannot write evidence: %s", err)
 	}
 
@@ -515,7 +530,7 @@ func saveFailCase(id, src string) string {
 		return src
 	}
 	h := sha1.Sum(b)
-	dir := filepath.Join(root, "replays", id)
+	dir := filepath.Join(outRoot, "replays", id)
 	_ = os.MkdirAll(dir, 0o755)
 	name := fmt.Sprintf("found-%x.json", h[:6])
 	dst := filepath.Join(dir, name)
@@ -525,7 +540,7 @@ func saveFailCase(id, src string) string {
 
 func saveText(id, kind, text string) string {
 	h := sha1.Sum([]byte(text))
-	dir := filepath.Join(root, "replays", id)
+	dir := filepath.Join(outRoot, "replays", id)
 	_ = os.MkdirAll(dir, 0o755)
 	name := fmt.Sprintf("%s-%x.txt", kind, h[:6])
 	_ = os.WriteFile(filepath.Join(dir, name), []byte(text), 0o644)
@@ -539,7 +554,8 @@ func runFuzz(id string, spec propSpec, tmp string) (violationLine string, info m
 	_ = os.MkdirAll(cache, 0o755)
 	// `go test -fuzz` must be run through the go tool to get coverage instrumentation
 	args := []string{"test", "-tags", "verif", "-vet=off", "-run", "^$", "-fuzz", "^" + spec.Fuzz + "$",
-		"-fuzztime", spec.FuzzTime.String(), "./props"}
+		"-fuzztime", spec.FuzzTime.String()}
+	args = append(append(args, altModArgs(tmp)...), "./props")
 	_ = cache
 	cmd := exec.Command("go", args...)
 	cmd.Dir = harness
@@ -562,7 +578,7 @@ func runFuzz(id string, spec propSpec, tmp string) (violationLine string, info m
 	crashRe := regexp.MustCompile(`testdata/fuzz/` + spec.Fuzz + `/([0-9a-f]+)`)
 	if m := crashRe.FindStringSubmatch(out); m != nil {
 		src := filepath.Join(harness, "props", "testdata", "fuzz", spec.Fuzz, m[1])
-		dir := filepath.Join(root, "replays", id)
+		dir := filepath.Join(outRoot, "replays", id)
 		_ = os.MkdirAll(dir, 0o755)
 		dst := filepath.Join(dir, "fuzz-"+m[1]+".json")
 		if fc, e := os.ReadFile(filepath.Join(tmp, "fail-fuzz.json")); e == nil {
@@ -604,7 +620,7 @@ func saveRace(id, lastCase, output string) string {
 	fc["failures"] = []map[string]string{{"sig": sig, "msg": report}}
 	b, _ := json.MarshalIndent(fc, "", " ")
 	h := sha1.Sum(b)
-	dir := filepath.Join(root, "replays", id)
+	dir := filepath.Join(outRoot, "replays", id)
 	_ = os.MkdirAll(dir, 0o755)
 	name := fmt.Sprintf("found-%x.json", h[:6])
 	_ = os.WriteFile(filepath.Join(dir, name), b, 0o644)
